@@ -156,8 +156,14 @@ def worker_c(case: Dict[str, Any]) -> CaseResult:
         stats["c.generated"] = 1
 
         def bad(clause, detail):
-            violations.append(Violation(PROP, "pair-" + clause, "scope %s, names %r/%r, snake=%s: %s" % (scope, a, b, snake, detail), feats, replay_case,
-                                        mech="pair-merged:%s" % scope))
+            # a "single" case pairs the name under test with an unrelated partner: nothing can be merged, so a failure is never the listed pair finding
+            import re as _re
+            if case.get("single") and _re.search(r"duplicate argument '(self|kwargs)'", detail):
+                violations.append(Violation(PROP, "single-" + clause, "scope %s, name %r, snake=%s: %s" % (scope, a, snake, detail), feats, replay_case,
+                                            mech="variable-named-self-or-kwargs"))
+                return
+            violations.append(Violation(PROP, ("single-" if case.get("single") else "pair-") + clause, "scope %s, names %r/%r, snake=%s: %s" % (scope, a, b, snake, detail),
+                                        feats, replay_case, mech=("c18:single-name:%s" % scope) if case.get("single") else ("pair-merged:%s" % scope)))
 
         try:
             pkg = import_package(root, "graphql_client")
@@ -257,9 +263,20 @@ def parts_b_c(r: core.Run, tier: str, seed: int) -> None:
             for scope in ("response_keys", "object_fields", "variables", "input_fields", "operations", "enum_values"):
                 ccases.append({"pair": list(pair), "scope": scope, "snake": snake, "kind": "pair"})
 
+    # single names in each scope, next to an unrelated partner: the wire name must stay, the value must arrive (names that meet a method local or a
+    # reserved word only after the mapping are the interesting ones)
+    singles = ["Query", "QUERY", "_query", "query_", "Variables", "_variables", "Data", "DATA", "Response", "response_", "operationName", "OperationName",
+               "query", "variables", "data", "response", "operation_name", "Self", "Kwargs", "Class", "From", "_from", "Json", "Copy", "modelDump", "Id", "ID"]
+    for snake in (True, False):
+        for nm in singles:
+            for scope in ("variables", "response_keys", "input_fields", "object_fields"):
+                ccases.append({"pair": [nm, "zzPartner"], "scope": scope, "snake": snake, "kind": "pair", "single": True})
+
     def on_c(case, res):
         r.add(case, res)
         r.mark_distinct(("C", tuple(case["pair"]), case["scope"], case["snake"]))
+        if case.get("single"):
+            r.count("c.single_name_cases")
 
     core.run_forked(ccases, worker_c, timeout_s=120, on_result=on_c)
     r.floors.update({"b.cases": 30, "b.input_cases": 20, "b.input_constructions": 200, "b.insitu_contract_evaluations": 2000, "c.cases": 50})
